@@ -3,11 +3,37 @@ from pyvc.check import Plan
 
 import contracts.binpacking  # noqa: F401
 import contracts.tsp  # noqa: F401
+import contracts.qap  # noqa: F401
+import bounded.bl_reference  # noqa: E402
 
 E1 = "moptipyapps.binpacking2d.encodings.ibl_encoding_1"
+E2 = "moptipyapps.binpacking2d.encodings.ibl_encoding_2"
 TL = "moptipyapps.tsp.tour_length"
 
 PLANS = {}
+
+PLANS["C01"] = Plan(
+    "C01", "proof",
+    functions=[E1 + ":__move_down", E1 + ":__move_left", E1 + ":_decode",
+               E2 + ":__move_down", E2 + ":__move_left", E2 + ":_decode"],
+    explanation="decoders: every row inside the bin, same-bin rows pairwise disjoint, id/size/rotation, bins 1..k gap-free "
+                "(ghost witness rows), bin count, every stored value within the instance dtype",
+    bounded=[bounded.bl_reference.harness],
+    trusted=["E1: int_range_to_dtype returns a type containing the requested range",
+             "E2: moptipy SignedPermutations keeps the multiset of item ids (x[k] != 0, |x[k]| <= n_different_items)"],
+)
+
+PLANS["C14"] = Plan(
+    "C14", "proof",
+    functions=[E1 + ":__move_down", E1 + ":__move_left", E1 + ":_decode",
+               E2 + ":__move_down", E2 + ":__move_left", E2 + ":_decode"],
+    bounded=[bounded.bl_reference.harness],
+    explanation="rule obligations R1-R9 (start position, orientation, strongest post of down/left moves, down precedence as "
+                "iteration contract of the while loop, stop condition, next-fit / first-fit as control-flow refinement "
+                "assertions, new-bin placement, write-before-read of y / bin_starts / bin_ends); the documented procedure is "
+                "deterministic, so these pin the result; an executable reference of the documentation is the replay vehicle",
+    trusted=["E1, E2 as for C01", "meta-argument: a deterministic step function iterated from a fixed start has one trajectory"],
+)
 
 REV = "moptipyapps.tsp.ea1p1_revn"
 FEA = "moptipyapps.tsp.fea1p1_revn"
